@@ -6,6 +6,7 @@ import (
 	"strconv"
 	"strings"
 	"time"
+	"unicode/utf8"
 
 	"github.com/tidwall/btree"
 	"github.com/tidwall/tile38/internal/collection"
@@ -17,6 +18,33 @@ import (
 const maxkeys = 8
 const maxids = 32
 const maxchunk = 4 * 1024 * 1024
+
+// shrinkFieldJSON returns the text that makes "SET ... FIELD name <text>"
+// read the field value back unchanged. This is Value.JSON(), except for a
+// string that is not valid UTF-8: the JSON encoder would replace each
+// offending byte with U+FFFD, so such a string is quoted here with its bytes
+// kept as they are (field.ValueOf unquotes it without looking at them).
+func shrinkFieldJSON(v field.Value) string {
+	if v.Kind() != field.String || utf8.ValidString(v.Data()) {
+		return v.JSON()
+	}
+	const hex = "0123456789abcdef"
+	data := v.Data()
+	b := make([]byte, 0, len(data)+2)
+	b = append(b, '"')
+	for i := 0; i < len(data); i++ {
+		c := data[i]
+		switch {
+		case c == '"' || c == '\\':
+			b = append(b, '\\', c)
+		case c < ' ':
+			b = append(b, '\\', 'u', '0', '0', hex[c>>4], hex[c&15])
+		default:
+			b = append(b, c)
+		}
+	}
+	return string(append(b, '"'))
+}
 
 func (s *Server) aofshrink() {
 	start := time.Now()
@@ -109,7 +137,7 @@ func (s *Server) aofshrink() {
 								if !f.Value().IsZero() {
 									values = append(values, "field")
 									values = append(values, f.Name())
-									values = append(values, f.Value().JSON())
+									values = append(values, shrinkFieldJSON(f.Value()))
 								}
 								return true
 							})
